@@ -42,7 +42,8 @@ Base64(bs) ==
        \o Base64(SubSeq(bs, 4, Len(bs)))
 
 \* the default marshaler's image of one key or value
-Elem(t, x) == IF t = "int" THEN JsonInt(x) ELSE IF t = "string" THEN JsonStr(x) ELSE JsonStr(Base64(x))
+Elem(t, x) == IF t = "nil" THEN <<110, 117, 108, 108>>     \* a nil value: the marshaler's "null", in both formats
+              ELSE IF t = "int" THEN JsonInt(x) ELSE IF t = "string" THEN JsonStr(x) ELSE JsonStr(Base64(x))
 
 \* ---------- v1.1.5binary: three length-prefixed lists ----------
 Framed(items) == Uvarint(Len(items)) \o Concat([i \in 1..Len(items) |-> Uvarint(Len(items[i])) \o items[i]])
